@@ -49,6 +49,10 @@ pub enum OrderKind {
     /// branch that is heavier than those, then the rest; one submitter, parents first, so every
     /// intermediate tip is adopted and the first blocks are re-attached as "already verified"
     SwitchBack,
+    /// generation order, but an ancestor of the best tip is held back until everything else has
+    /// arrived and the orphan clean-up timer (hook H3b: 100 ms period) has fired several times
+    /// while its descendants wait in the orphan pool
+    OrphansAcrossCleanTimer,
 }
 
 #[derive(Clone)]
@@ -109,7 +113,7 @@ pub fn run(args: &Args) -> i32 {
     };
     let mut rng = Rng::new(args.seed);
     let n_trees = args.get_u64("trees", args.tier.pick(10, 120));
-    let n_orders = args.get_u64("orders", args.tier.pick(6, 11));
+    let n_orders = args.get_u64("orders", args.tier.pick(7, 12));
     let deadline = Instant::now() + Duration::from_secs(args.get_u64("budget_s", args.tier.pick(70, 900)));
     for ti in 0..n_trees {
         if Instant::now() > deadline {
@@ -143,7 +147,8 @@ pub fn run(args: &Args) -> i32 {
                 3 => OrderKind::RandomWithDuplicates,
                 4 => OrderKind::InOrderInvalidTwice,
                 5 => OrderKind::SwitchBack,
-                6 => OrderKind::InvalidDupLagged,
+                6 => OrderKind::OrphansAcrossCleanTimer,
+                7 => OrderKind::InvalidDupLagged,
                 _ => {
                     if trng.bool() {
                         OrderKind::Random
@@ -152,7 +157,7 @@ pub fn run(args: &Args) -> i32 {
                     }
                 }
             };
-            let threads = if oi < 2 || oi == 4 || oi == 5 || oi == 6 { 1 } else { 1 + trng.usize_below(4) };
+            let threads = if oi < 2 || (4..=7).contains(&oi) { 1 } else { 1 + trng.usize_below(4) };
             let readers = if oi == 0 { 0 } else { trng.usize_below(3) };
             let with_plan = oi >= 2;
             deliver_and_check(&tg, &gi, &kind, threads, readers, with_plan, &mut trng, shape, &mut r);
@@ -175,6 +180,9 @@ pub fn run(args: &Args) -> i32 {
     r.c01.require("obs.reorgs", 1);
     if n_orders > 5 && FIXED_ORDER.with(|f| f.borrow().is_none()) {
         r.c01.require("order.SwitchBack.realised", 1);
+    }
+    if n_orders > 6 && FIXED_ORDER.with(|f| f.borrow().is_none()) {
+        r.c01.require("order.OrphansAcrossCleanTimer.realised", 1);
     }
     r.c01.require("obs.orphaned_deliveries", 1);
     r.c01.require("hook.chain::after_store_snapshot", 1);
@@ -361,6 +369,19 @@ fn make_order(tg: &TreeGen, kind: &OrderKind, rng: &mut Rng) -> Vec<H> {
                 v = res;
             }
         }
+        OrderKind::OrphansAcrossCleanTimer => {
+            let all: HashSet<H> = v.iter().cloned().collect();
+            let (_, best) = tg.rc.best(&all);
+            if let Some(best_tip) = best.first() {
+                let p = tg.rc.path(best_tip);
+                if p.len() >= 4 {
+                    let back = 1 + rng.usize_below(3.min(p.len() - 2));
+                    let x = p[p.len() - 1 - back];
+                    v.retain(|y| *y != x);
+                    v.push(x);
+                }
+            }
+        }
         OrderKind::SwitchBack => {
             let all: HashSet<H> = v.iter().cloned().collect();
             let (_, best) = tg.rc.best(&all);
@@ -441,7 +462,18 @@ fn deliver_and_check(
     if matches!(kind, OrderKind::SwitchBack) && order != tg.order {
         r.c01.count("order.SwitchBack.realised");
     }
+    let across_timer = matches!(kind, OrderKind::OrphansAcrossCleanTimer) && order != tg.order;
+    if across_timer {
+        // read once when the chain service thread starts
+        unsafe { std::env::set_var("VERIF_ORPHAN_CLEAN_MS", "100") };
+        r.c01.count("order.OrphansAcrossCleanTimer.realised");
+    }
     let node = Node::boot(gi, &NodeCfg::default());
+    if across_timer {
+        std::thread::sleep(Duration::from_millis(20));
+        unsafe { std::env::remove_var("VERIF_ORPHAN_CLEAN_MS") };
+    }
+    let pause_before: Option<H> = if across_timer { order.last().cloned() } else { None };
     hooks::observe(Some(node.shared.clone()));
     hooks::set_plan(if matches!(kind, OrderKind::InvalidDupLagged) {
         let mut points = std::collections::BTreeMap::new();
@@ -533,6 +565,9 @@ fn deliver_and_check(
             let callbacks = Arc::clone(&callbacks);
             handles.push(s.spawn(move || {
                 for x in chunk {
+                    if Some(x) == pause_before {
+                        std::thread::sleep(Duration::from_millis(700));
+                    }
                     let block: Arc<BlockView> = Arc::clone(&rc.get(&x).block);
                     let cbs = Arc::clone(&callbacks);
                     node.chain().asynchronous_process_remote_block(RemoteBlock {
